@@ -81,6 +81,8 @@ def main():
         i = p['id']
         if i in CHECKS:
             t, text, note, ref = CHECKS[i]
+            if i in ("C01","C02","C03","C04","C05","C06","C10","C12","C13","C16"):
+                t += "; thorough tier adds a coverage-guided libFuzzer/ASan campaign (bin/fuzz) with the same oracle in-target"
             checks.append({
                 "property_id": i,
                 "quick_cmd": f"bin/check {i} --tier quick",
